@@ -46,4 +46,5 @@ func hx(b []byte) string { return hex.EncodeToString(b) }
 
 func init() {
 	registerFrames()
+	registerCancel()
 }
